@@ -309,7 +309,8 @@ class Future(BaseFuture):
             other_operand = self.builder._mem_mgr.get_inactive_register(activate=True)
             other_tmp_register = other_operand
             load_commands += other.get_load_commands(other_tmp_register)
-            store_commands += other._get_store_commands(other_tmp_register)
+            # `other` is only read: it must not be stored back (its temporary register
+            # may have been reused for loading an index by the time of the stores).
         elif isinstance(other, RegFuture):
             # NOTE: a RegFuture is also an `int`, so this check must come before the int case
             assert other.reg is not None
